@@ -33,10 +33,10 @@ TV_CFG = "SPECIFICATION Spec\nINVARIANT Done\nCHECK_DEADLOCK FALSE\n"
 TIERS = {
     # K: symbols per type in the uniform family; R: symbols used by rare operations
     'quick': dict(K=6, R=2, depth_small=3, depth_big=3, small=6, wordlen=4, wordlen_big=3, big=12, maxpersym=2, maxrare=1,
-                  ops=['add', 'fwd', 'remove', 'replace', 'tostring', 'tostring_ic', 'dotelem', 'dotnone'],
+                  ops=['add', 'fwd', 'remove', 'replace', 'replacep', 'tostring', 'tostring_ic', 'dotelem', 'dotnone'],
                   families=['uniform', 'words', 'perms', 'removal', 'cover', 'afterfail', 'wordrem'], chks=['TRUE', 'FALSE'], shards=40, RM=4, remadds=3, planlen=8, planmax=250),
     'thorough': dict(K=8, R=3, depth_small=4, depth_big=3, small=5, wordlen=5, wordlen_big=4, big=12, maxpersym=2, maxrare=1,
-                     ops=['add', 'fwd', 'remove', 'replace', 'tostring', 'tostring_ic', 'dotelem', 'dotnone'],
+                     ops=['add', 'fwd', 'remove', 'replace', 'replacep', 'tostring', 'tostring_ic', 'dotelem', 'dotnone'],
                      families=['uniform', 'words', 'perms', 'removal', 'cover', 'afterfail', 'wordrem'], chks=['TRUE', 'FALSE'], shards=64, RM=5, remadds=4, planlen=10, planmax=2000, small_wordlen=5),
 }
 
@@ -303,7 +303,7 @@ def run_campaign(tier):
         for s_ in shards:
             for fams, ts in s_['byfam'].items():
                 jobs.append((sorted(ts), [f for f in fams if f != '-nodot'],
-                             ['add', 'remove', 'replace', 'tostring', 'tostring_ic'] if '-nodot' in fams else None))
+                             ['add', 'remove', 'replace', 'replacep', 'tostring', 'tostring_ic'] if '-nodot' in fams else None))
         results = []
         with ThreadPoolExecutor(max_workers=common.NCPU) as ex:
             futs = [ex.submit(shard_pipeline, wd, k, ts, plans, P, fams, ops) for k, (ts, fams, ops) in enumerate(jobs)]
